@@ -45,3 +45,17 @@ Example C09_nonvacuous :
   uniq_ids [5; 6; 5; 7; 6] = ([0; 1; 3], [0; 1; 0; 2; 1]) /\
   map_unique [0; 1; 0; 2; 1] [10; 11; 12] = [10; 11; 10; 12; 11].
 Proof. vm_compute. auto. Qed.
+
+(* ---- xitorch/_utils/unique.py:Uniquifier.__init__ as translated from /repo on this run (Gen/PyUnique.v) computes the
+   first-occurrence de-duplication [uniq_go] of the model, for every list of objects with distinct identities ---- *)
+From Coq Require Import ZArith.
+From XV Require Import Base.PyLib Gen.PyUnique Proofs.PyUniqueProofs.
+Theorem C09_translated_uniquifier_is_model : forall (f : nat -> obj),
+  (forall i j, obj_id (f i) = obj_id (f j) -> i = j) -> forall ids,
+  let ui := fst (uniq_go ids 0 [] 0) in
+  let inv := snd (uniq_go ids 0 [] 0) in
+  uniquifier_init (map f ids) =
+  Ok (Z.of_nat (length ids), map f (uniq_new ids [] 0), map Z.of_nat ui, map Z.of_nat inv,
+      Z.of_nat (length ui), Z.eqb (Z.of_nat (length ids)) (Z.of_nat (length ui))).
+Proof. exact uniquifier_init_refines. Qed.
+Print Assumptions C09_translated_uniquifier_is_model.
